@@ -2,11 +2,13 @@ package main
 
 import (
 	"encoding/json"
+	"errors"
 	"flag"
 	"fmt"
 	"os"
 	"path/filepath"
 	"strings"
+	"sync/atomic"
 	"time"
 
 	"k8s.io/client-go/kubernetes"
@@ -73,7 +75,7 @@ func runPopulation(run *evid.Run, p *popSpec, base string) error {
 
 	// real clean-port wiring
 	var kube kubernetes.Interface = newKube(m)
-	cb := func(id string) error { m.callback(id); return nil }
+	cb := func(id string) error { return m.callback(id) }
 	var pmh *portmapping.PortMappingHandler
 	if p.RealCallback {
 		ipt := fakes.NewIPTables(nil)
@@ -85,7 +87,25 @@ func runPopulation(run *evid.Run, p *popSpec, base string) error {
 		if err != nil {
 			return fmt.Errorf("galaxy.VerifNew: %v", err)
 		}
-		cb = func(id string) error { m.callback(id); return g.VerifCleanIPtables(id) }
+		// containers marked IptFail: every iptables operation fails while their clean-up runs (callbacks are
+		// serial: only the gc-dir loop calls them)
+		var failNow int32
+		ipt.FailHook = func(op string) error {
+			if atomic.LoadInt32(&failNow) == 1 {
+				return errors.New("iptables: Permission denied (you must be root)")
+			}
+			return nil
+		}
+		cb = func(id string) error {
+			_ = m.callback(id)
+			if cs := m.ctr[id]; cs != nil && cs.spec.IptFail {
+				atomic.StoreInt32(&failNow, 1)
+				defer atomic.StoreInt32(&failNow, 0)
+			}
+			err := g.VerifCleanIPtables(id)
+			m.callbackResult(id, err)
+			return err
+		}
 		m.natFn = func() string { return ipt.Dump("nat") }
 	}
 
@@ -115,6 +135,14 @@ func runPopulation(run *evid.Run, p *popSpec, base string) error {
 				return fmt.Errorf("SetupPortMapping on strict fake: %v", err)
 			}
 			data, _ := json.Marshal(ports)
+			switch c.PortFile {
+			case "truncated":
+				data = data[:len(data)/2]
+			case "garbage":
+				data = []byte("\x00\x00\x00{\"hostPort\":")
+			case "empty":
+				data = nil
+			}
 			if err := k8s.SavePort(c.ID, data); err != nil {
 				return fmt.Errorf("SavePort: %v", err)
 			}
